@@ -43,6 +43,9 @@ type Engine struct {
 	prog        *ssa.Program
 	fset        *token.FileSet
 	fns         map[string]*ssa.Function
+	names       *nameTables
+	allocIdx    map[*ssa.Alloc]int
+	curNames    map[string]*fnInfo
 	smt         *SMT
 	spec        *SpecFile
 	flat        flatCache
@@ -163,13 +166,13 @@ func (e *Engine) describe(v ssa.Value) string {
 		return x.Value.ExactString()
 	case *ssa.Alloc:
 		if x.Comment != "" {
-			return x.Comment
+			return e.allocName(x)
 		}
 		return x.Name()
 	case *ssa.Parameter:
-		return x.Name()
+		return e.vname(x.Parent(), x.Name())
 	case *ssa.FreeVar:
-		return x.Name()
+		return e.vname(x.Parent(), x.Name())
 	case *ssa.Global:
 		return x.Name()
 	case *ssa.UnOp:
@@ -651,10 +654,11 @@ func (e *Engine) execSimple(st *State, fr *Frame, ins ssa.Instruction) {
 					fr.heapNames = map[string]*Loc{}
 				}
 				fr.heapNames[x.Comment] = loc
+				fr.heapNames[e.allocName(x)] = loc
 			}
 			break
 		}
-		c := e.newCell(elem, x.Comment, x.Heap)
+		c := e.newCell(elem, e.allocName(x), x.Heap)
 		_, namedArr := types.Unalias(elem).(*types.Named)
 		if at, ok := elem.Underlying().(*types.Array); ok && !namedArr {
 			// arrays are modelled as backing stores addressed like slices
@@ -669,6 +673,7 @@ func (e *Engine) execSimple(st *State, fr *Frame, ins ssa.Instruction) {
 		}
 		if x.Comment != "" {
 			fr.names[x.Comment] = c
+			fr.names[e.allocName(x)] = c
 		}
 		if fr.allocs == nil {
 			fr.allocs = map[*ssa.Alloc]*Cell{}
@@ -1544,15 +1549,15 @@ func (e *Engine) chanClass(v ssa.Value) string {
 			st := a.X.Type().Underlying().(*types.Pointer).Elem()
 			return typeKey(st) + "." + st.Underlying().(*types.Struct).Field(a.Field).Name()
 		case *ssa.Alloc:
-			return "var:" + a.Comment
+			return "var:" + e.allocName(a)
 		case *ssa.FreeVar:
-			return "var:" + a.Name()
+			return "var:" + e.vname(a.Parent(), a.Name())
 		}
 	case *ssa.Field:
 		st := x.X.Type()
 		return typeKey(st) + "." + st.Underlying().(*types.Struct).Field(x.Field).Name()
 	case *ssa.Parameter:
-		return "var:" + x.Name()
+		return "var:" + e.vname(x.Parent(), x.Name())
 	case *ssa.ChangeType:
 		return e.chanClass(x.X)
 	}
